@@ -26,6 +26,12 @@ func (s *Service) emitHPChangeEvents(
 		IsHPChangeByDamage: isDamage,
 	})
 
+	// death is final: the HP of a dead target may still be changed, but it stays dead (it is neither
+	// brought back to life nor put into limbo by a revive effect a second time)
+	if s.targets[target].state == info.Dead {
+		return nil
+	}
+
 	if newRatio > 0 {
 		s.targets[target].state = info.Alive
 		return nil
